@@ -70,6 +70,20 @@ static inline %(T)s* vf_seq_%(G)s_erase(struct vf_seq_%(G)s* s, %(T)s* it)
 '''
 
 SEQ_EXTRA = r'''
+static inline %(T)s* vf_seq_%(G)s_erase_range(struct vf_seq_%(G)s* s, %(T)s* first, %(T)s* last)
+{
+  size_t i = (size_t)(first - (s->d + s->h));
+  size_t l = (size_t)(last - (s->d + s->h));
+  __CPROVER_assert(i <= l && l <= s->n, "vf_seq erase_range in range");
+  size_t k = l - i;
+  for (size_t j = i; j + k < s->n; j++)
+    __CPROVER_assigns(j, __CPROVER_object_whole(s->d))
+    __CPROVER_loop_invariant(i <= j && j + k <= s->n)
+    __CPROVER_decreases(s->n - j)
+  { s->d[s->h + j] = s->d[s->h + j + k]; }
+  s->n -= k;
+  return first;
+}
 static inline struct vf_seq_%(G)s vf_seq_%(G)s_make_n(size_t n) { struct vf_seq_%(G)s s; __CPROVER_assume(n <= VF_CAP); s.d = (%(T)s*)calloc(VF_CAP, sizeof(%(T)s)); __CPROVER_assume(s.d != 0); s.h = 0; s.n = n; s.cap = VF_CAP; return s; }
 static inline struct vf_seq_%(G)s vf_seq_%(G)s_make_fill(size_t n, %(T)s v) { struct vf_seq_%(G)s s = vf_seq_%(G)s_make(); __CPROVER_assume(n <= VF_CAP); for (size_t i = 0; i < VF_CAP; i++) { if (i < n) s.d[i] = v; } s.n = n; return s; }
 static inline void vf_seq_%(G)s_resize(struct vf_seq_%(G)s* s, size_t n) { __CPROVER_assume(s->h + n <= s->cap); for (size_t i = 0; i < VF_CAP; i++) { if (s->n + i < n) memset(&s->d[s->h + s->n + i], 0, sizeof(%(T)s)); } s->n = n; }
